@@ -12,6 +12,7 @@ import (
 	"math"
 	"sync"
 	"time"
+	"verif/harness/sched"
 
 	"github.com/btcsuite/btcd/chaincfg"
 	"github.com/decred/dcrd/dcrec/secp256k1/v4"
@@ -83,6 +84,7 @@ type Call struct {
 	Amount   uint64 `json:"amount_msat,omitempty"`
 	FeeLimit uint64 `json:"fee_limit_sat,omitempty"`
 	Answer   string `json:"answer,omitempty"`
+	Gid      int64  `json:"-"` // the goroutine that made the call (which of several concurrent requests)
 }
 
 type Script struct {
@@ -138,6 +140,7 @@ func (n *Network) NewNode(name string) *Node {
 func (n *Network) log(c Call) {
 	n.seq++
 	c.Seq = n.seq
+	c.Gid = sched.Gid()
 	n.Calls = append(n.Calls, c)
 }
 
